@@ -86,6 +86,17 @@ func c17Values(thorough bool) []string {
 			}
 		}
 	}
+	// every code point beyond ASCII (quick: the basic plane; thorough: planes 0-2 and 14), next to a quote
+	top := rune(0xFFFF)
+	if thorough {
+		top = 0xE0FFF
+	}
+	for r := rune(0x80); r <= top; r++ {
+		if r >= 0xD800 && r <= 0xDFFF || r >= 0x30000 && r < 0xE0000 {
+			continue
+		}
+		add("a" + string(r) + "'b")
+	}
 	for _, w := range core {
 		for _, x := range core {
 			for _, y := range core {
@@ -401,7 +412,7 @@ func c17Run(c *fw.Ctx) error {
 			cases = append(cases, c17Case{Kind: "shellvar", Keys: []string{"k"}, Value: v})
 		}
 	}
-	c.Res.Bound = fmt.Sprintf("%d @sh values (every byte 0x01-0x7F, every pair (thorough: every triple), all strings of <= 3 atoms over a %d-atom alphabet, length 4 over a core, 153 values of 4 KiB and 64 KiB +-1 with a hazard at the start, middle or end) and %d -o=shell (key path, value) documents, each expanded by dash and bash", len(values), len(c17Atoms), len(cases)-len(values))
+	c.Res.Bound = fmt.Sprintf("%d @sh values (every byte 0x01-0x7F, every pair (thorough: every triple), all strings of <= 3 atoms over a %d-atom alphabet, every code point beyond ASCII next to a quote, length 4 over a core, 153 values of 4 KiB and 64 KiB +-1 with a hazard at the start, middle or end) and %d -o=shell (key path, value) documents, each expanded by dash and bash", len(values), len(c17Atoms), len(cases)-len(values))
 	var mine []c17Item
 	for i, cs := range cases {
 		if c.Mine(int64(i)) {
